@@ -105,15 +105,15 @@ CHECKS = {
         "technique": "Lean 4 proof by induction over schedules + regenerated source-structure facts + differential and concurrent runs",
     },
     'C05': {"text": 'For every interleaving of any number of calls, dispatchers of any connection, fail-alls and reconnects (Waiters LTS, 12-clause invariant, one grind lemma per action): a call returns only a response with its own id that arrived on its own connection; first response wins; a dispatch touches one slot; the error mapping of Packet.Err. Scenarios: permuted/duplicated/late/unknown answers for 1..32 callers, all 256 status codes x body kinds, stale answers across a reconnect, both transports.', "design_ref": 'DESIGN.md section 7, C05', "note": CLIENT_NOTE + "Go scheduler, sockets, wall-clock: runtime (partial).", "technique": 'Lean 4 invariant proof over a labelled transition system + scenario monitors against scripted peers'},
-    'C06': {"text": 'Safety core proved for every interleaving: no read->write lock upgrade, no state of the Close/reader/retry-goroutine quartet in which all unfinished threads are blocked (RWMutex + Once + rendez-vous, 17-clause invariant, 36 actions), single-flight recovery, every wait of a call has a deadline alternative, a failed waiter returns an error. Scenarios: every peer fault incl. drop after k bytes for k=0..12, under a watchdog.', "design_ref": 'DESIGN.md section 7, C06 and Appendix B', "note": CLIENT_NOTE + "Go scheduler, sockets, wall-clock: runtime (partial).", "technique": 'Lean 4 no-deadlock/invariant proofs over the lifecycle LTS + fault scenarios with watchdog'},
+    'C06': {"text": 'Safety core proved for every interleaving: no read->write lock upgrade, no state of the Close/reader/retry-goroutine quartet in which all unfinished threads are blocked (RWMutex + Once + rendez-vous, 17-clause invariant, 36 actions), single-flight recovery, every wait of a call has a deadline alternative, a failed waiter returns an error. Scenarios: every peer fault incl. drop after k bytes for k=0..12, under a watchdog. Round 2: LockWait view (do_returns_after_close: once the close signal is set every call returns without any deadline firing).', "design_ref": 'DESIGN.md section 7, C06 and Appendix B', "note": CLIENT_NOTE + "Go scheduler, sockets, wall-clock: runtime (partial).", "technique": 'Lean 4 no-deadlock/invariant proofs over the lifecycle LTS + fault scenarios with watchdog'},
     'C07': {"text": "In every reachable state a call whose request was handed to the transport is registered (order-sensitive invariant), so the matching response dispatched at any such moment lands in its slot, stays there, and the call's next step returns it; the pinned order is refuted by a decided 3-action trace. The window is forced with a gate after the hand-over on the real client.", "design_ref": 'DESIGN.md section 7, C07', "note": CLIENT_NOTE + "Go scheduler, sockets, wall-clock: runtime (partial).", "technique": 'Lean 4 invariant proof + forced schedule through a build-tag-guarded gate'},
-    'C08': {"text": 'Decision logic as a pure function, theorems for ALL outcome sequences and configurations (session used iff unexpired, unauthenticated -> auth in the same attempt, hit-max iff count reached, old closed before dial, callback only on success and last); single-flight and one recovery per loss for every interleaving of notifiers. Scenarios: outcome sequences x expired/unexpired x token x MaxReconnect, observed at the peer; model-scripted runs: random scripts from the quantifier domain (several losses in a row) played attempt by attempt through a gate, the Lean function Reconnect.recover evaluated on the same script by the compiled driver, observable action sequences must be equal (16 scripts quick, 768 thorough).', "design_ref": 'DESIGN.md section 7, C08', "note": CLIENT_NOTE + "Go scheduler, sockets, wall-clock: runtime (partial).", "technique": 'Lean 4 proofs (pure decision function + LTS invariant) + model-as-oracle scenarios'},
+    'C08': {"text": 'Decision logic as a pure function, theorems for ALL outcome sequences and configurations (session used iff unexpired, unauthenticated -> auth in the same attempt, hit-max iff count reached, old closed before dial, callback only on success and last); single-flight and one recovery per loss for every interleaving of notifiers. Scenarios: outcome sequences x expired/unexpired x token x MaxReconnect, observed at the peer; model-scripted runs: random scripts from the quantifier domain (several losses in a row) played attempt by attempt through a gate, the Lean function Reconnect.recover evaluated on the same script by the compiled driver, observable action sequences must be equal (16 scripts quick, 768 thorough). Round 2: the recovery/close hook log of every client in every run is replayed through the Recovery LTS as a weak trace (T3; an ok is certified by a genuine run of the proved LTS).', "design_ref": 'DESIGN.md section 7, C08', "note": CLIENT_NOTE + "Go scheduler, sockets, wall-clock: runtime (partial).", "technique": 'Lean 4 proofs (pure decision function + LTS invariant) + model-as-oracle scenarios'},
     'C12': {"text": "For any number of writers and any pattern of partial socket writes: socket bytes are a prefix of handshake ++ accepted frames in acceptance order, equal once drained; enqueue never blocks. Scenarios: 1-48 writers, 1 B..2.5 MB frames, queue sizes 1..64, stalled peer; the peer's raw byte log is cut by an independent layout parser.", "design_ref": 'DESIGN.md section 7, C12', "note": CLIENT_NOTE + "Go scheduler, sockets, wall-clock: runtime (partial).", "technique": 'Lean 4 invariant proof over the write-path LTS + raw byte log analysis at scripted peers'},
     'C13': {"text": 'For every interleaving of reader and dispatcher: handler log = routing of accepted packets in arrival order (each push once per handler in subscription order), losses = counted overflow drops; control and non-push packets never reach subscribers; control bound regenerated from the source. Scenarios: bursts, slow handlers, overflow, reconnect, early pushes; model-scripted runs: random subscription tables and frame streams, the Lean Dispatch model evaluated on the same script, handler logs must be equal.', "design_ref": 'DESIGN.md section 7, C13', "note": CLIENT_NOTE + "Go scheduler, sockets, wall-clock: runtime (partial).", "technique": 'Lean 4 invariant proof over the dispatch queue LTS + invocation-log monitors'},
-    'C14': {"text": 'For every interleaving of any number of Close callers and dial entries: the close callback runs at most once and no dial starts after a Close returned (signal-before-lock / check-under-lock); Close never re-enters recovery. Scenarios: Close in every named client state, second Close, hit-max, writer parked between closed() check and queue send.', "design_ref": 'DESIGN.md section 7, C14', "note": CLIENT_NOTE + "Go scheduler, sockets, wall-clock: runtime (partial).", "technique": 'Lean 4 invariant proofs over lifecycle slices + directed/gated close scenarios'},
+    'C14': {"text": 'For every interleaving of any number of Close callers and dial entries: the close callback runs at most once and no dial starts after a Close returned (signal-before-lock / check-under-lock); Close never re-enters recovery. Scenarios: Close in every named client state, second Close, hit-max, writer parked between closed() check and queue send. Round 2: the LockWait view (RWMutex with writer preference, Do holding the read lock while waiting, notifiers, retry goroutine, Close) proves close_returns_promptly for every interleaving and that D24\'s and D20\'s guards are each necessary (Close can still wait for a dial in progress, at most the dial timeout: close_waits_for_dial_in_progress); the ConnThreads view proves conn.Close idempotent and never blocking; recovery/close hook logs of every run are replayed through the Recovery LTS (T3).', "design_ref": 'DESIGN.md section 7, C14', "note": CLIENT_NOTE + "Go scheduler, sockets, wall-clock: runtime (partial).", "technique": 'Lean 4 invariant proofs over lifecycle slices + directed/gated close scenarios'},
     'C15': {"text": 'Timed model: with timeout >= interval a peer answering every heartbeat is never recycled, including after any kind of recovery; a silent peer is recycled at the first tick past lastPong+timeout; heartbeat ids fresh. Scenarios with real protobuf-decoded heartbeats on both transports; every decision of the real check() logged by a hook (last ping id, ms since last pong, timeout) is re-decided by the Lean checkFails through the driver.', "design_ref": 'DESIGN.md section 7, C15', "note": CLIENT_NOTE + "Go scheduler, sockets, wall-clock: runtime (partial).", "technique": 'Lean 4 proofs over a timed sequential model + timed scenarios'},
-    'C16': {"text": 'At most one retry goroutine and one recovery per loss (any interleaving), every exit path of a call unregisters its waiter; goroutine-profile and open-socket counts flat over dial/drop/close cycles on the real client.', "design_ref": 'DESIGN.md section 7, C16', "note": CLIENT_NOTE + "Go scheduler, sockets, wall-clock: runtime (partial).", "technique": 'Lean 4 invariant proofs + goroutine/socket accounting over cycles'},
+    'C16': {"text": 'At most one retry goroutine and one recovery per loss (any interleaving), every exit path of a call unregisters its waiter; goroutine-profile and open-socket counts flat over dial/drop/close cycles on the real client. Round 2: the ConnThreads view proves for every interleaving that after Close the reader, writer and dispatcher of a connection each have an enabled step until they exit, within a bound that depends on the configuration only (conn_threads_exit, conn_exit_bound), and that each of the four guards is necessary; recovery hook logs are replayed through the Recovery LTS (T3).', "design_ref": 'DESIGN.md section 7, C16', "note": CLIENT_NOTE + "Go scheduler, sockets, wall-clock: runtime (partial).", "technique": 'Lean 4 invariant proofs + goroutine/socket accounting over cycles'},
     'C17': {"text": 'Lockset soundness proved over an abstract trace model with readers-writer locks (common lock, one side in write mode => happens-before); witness search by re-running ~90 scenarios under the race detector. Weakest claim: the access table is not yet regenerated from the source.', "design_ref": 'DESIGN.md section 7, C17', "note": CLIENT_NOTE + "Go scheduler, sockets, wall-clock: runtime (partial).", "technique": 'Lean 4 proof of lockset soundness + race-detector witness search over the scenario suites'},
-    'C20': {"text": 'Outbound/inbound WebSocket control-frame mappings field by field and transport equivalence of the application trace for every script expressible on both transports (induction over the script, codec and gorilla as parameters); the same peer script is run on real TCP and real gorilla peers and the canonical traces compared.', "design_ref": 'DESIGN.md section 7, C20', "note": CLIENT_NOTE + "Go scheduler, sockets, wall-clock: runtime (partial).", "technique": 'Lean 4 proof of trace equivalence over scripts + paired TCP/WebSocket scenario runs'},
+    'C20': {"text": 'Outbound/inbound WebSocket control-frame mappings field by field and transport equivalence of the application trace for every script expressible on both transports (induction over the script, codec and gorilla as parameters); the same peer script is run on real TCP and real gorilla peers and the canonical traces compared. Round 2: the WebSocket reader goroutine is modelled (WsReading) and proved to deliver, for valid frames one per message, exactly what the TCP reader delivers for their concatenation under any segmentation; control frames are proved to denote exactly the packets of the corresponding heartbeat/close frames.', "design_ref": 'DESIGN.md section 7, C20', "note": CLIENT_NOTE + "Go scheduler, sockets, wall-clock: runtime (partial).", "technique": 'Lean 4 proof of trace equivalence over scripts + paired TCP/WebSocket scenario runs'},
 }
 NOT_CLAIMED = {}
